@@ -74,8 +74,8 @@ def body(c):
     all_cfg = dict(mbs=[1, 2, 3], modes=MODES, prefeds=[[], [1]], holesets=[[]])
     # ---- mode M ---------------------------------------------------------------------------------------------------------
     if c.quick:
-        model_check(c, "3 requests over 2 keys, batch 1-3, all cache modes, Ok/Err, cancellation: invariants",
-                    consts([1, 2], 3, **dict(all_cfg, prefeds=[[]])), False, 900)
+        model_check(c, "3 requests over 2 keys, batch 1-3, cache none/map/lru1/disabled (lru2 = map on 2 keys), Ok/Err, cancellation: invariants",
+                    consts([1, 2], 3, **dict(all_cfg, prefeds=[[]], modes=["none", "map", "lru1", "mapoff"])), False, 900)
         model_check(c, "2 requests over 2 keys, batch 1-3, all cache modes, pre-fed cache, Ok/Err, cancellation: invariants + liveness",
                     consts([1, 2], 2, **all_cfg), True, 900)
     else:
@@ -98,7 +98,7 @@ def body(c):
                     simulate=400 if c.quick else 6000, depth=40, seed=c.seed)
     sim6 = generate(c, "simulation: 6 requests over 5 keys, batch 1-4, LRU(3), keys unknown to the loader",
                     consts([1, 2, 3, 4, 5], 6, mbs=[1, 2, 3, 4], modes=MODES + ["lru3"], prefeds=[[], [1, 2]], holesets=[[], [5]]),
-                    workers=1, simulate=400 if c.quick else 6000, depth=60, seed=c.seed)
+                    workers=1, simulate=120 if c.quick else 6000, depth=60, seed=c.seed)
     cases = []
     for src, lst in (("bfs", bfs), ("sim3", sim3), ("sim6", sim6)):
         for s in lst:
